@@ -198,11 +198,17 @@ def action_component_ref(status: Optional[str], sticky: Optional[bool], mem: flo
     Rule: positive only on success: success -> +1, failure / unreachable -> -1, pending -> not positive (the docs name
     no value for an unresolved request: 0 and -1 are both accepted). No request: sticky keeps the last value (a component
     that reads the application's state may alternatively drop to 0 while that application is not installed, the docs
-    are silent), non-sticky returns 0, flag omitted -> unchecked.
+    are silent; for the same reason it may answer 0 instead of +1 for a successful request when the application is gone
+    from the post-step state), non-sticky returns 0, flag omitted -> unchecked.
     Returns (event label, predicate on v, text of what was expected).
     """
     if status is not None:
         if status == "success":
+            if app_absent and absent_resets:
+                # the request succeeded, but another agent uninstalled the application later in the same step: the
+                # component reads the outcome from the post-step state, which no longer reports the application, and
+                # documents "could not be calculated ... Returning 0.0" for that situation
+                return "event-success", (lambda v: _close(v, 1.0) or v == 0.0), "1.0 or 0.0 (application absent after the step)"
             return "event-success", (lambda v: _close(v, 1.0)), "1.0"
         if status == "pending":
             return "event-pending", (lambda v: v <= 0.0), "<= 0"
